@@ -207,6 +207,10 @@ pub fn install_quiet_panic_hook() {
 
 /// Run `f`, turning a panic into Err(payload @ location).
 pub fn guarded<T, F: FnOnce() -> T>(f: F) -> Result<T, String> {
+    // the hooks append one observation per runtime error to a thread-local log; monitors that do not
+    // read it must not let it grow for the length of a thorough run (it is drained BEFORE the call, so
+    // a monitor that reads it after the call still sees this call's observations)
+    let _ = jmespath::verif::take_events();
     match panic::catch_unwind(AssertUnwindSafe(f)) {
         Ok(v) => Ok(v),
         Err(_) => Err(LAST_PANIC
